@@ -261,6 +261,31 @@ class FunctionIndirectInteractionUtils(object):
         return res
 
 
+    @staticmethod
+    def check_load_order(fis: FunctionIndirectInteractions) -> None:
+        """
+        Checks that no path is loaded before it is produced (by a call to keep or by a data function)
+        in the same evaluation: such a load would not see the data produced by this evaluation.
+        """
+        all_stores = FunctionIndirectInteractionUtils.all_stores(fis)
+        produced: Set[DDSPath] = set()
+
+        def rec(fis0: FunctionIndirectInteractions) -> None:
+            for dep in fis0.indirect_deps:
+                if isinstance(dep, FunctionIndirectInteractions):
+                    rec(dep)
+                elif dep in all_stores and dep not in produced:
+                    raise DDSException(
+                        f"The path {dep} is loaded (dds.load) in {fis0.fun_path} before it is produced in the same "
+                        f"evaluation. The load would not see the data that this evaluation is going to produce. "
+                        f"Suggestion: call the function that produces {dep} before loading it."
+                    )
+            if fis0.store_path is not None:
+                produced.add(fis0.store_path)
+
+        rec(fis)
+
+
 class SupportedTypeUtils(object):
     @staticmethod
     def from_type(t: type) -> SupportedType:
